@@ -14,7 +14,7 @@ def _step(name, tier, layers):
     props = ["C13", "C16", "C20"] + (["C03"] if name in ("step_n", "step_nn", "step_fn", "step_nf") else [])
     return {"name": "walk::glob::verif_kani::" + name, "props": props, "tier": tier,
             "functions": STEP_FUNCS, "bounds": STEP_BOUNDS + "; stack (source first): " + layers,
-            "stubs": STEP_STUB, "replay": "filter_stack"}
+            "stubs": STEP_STUB, "replay": "filter_stack+walk_errors"}
 
 
 HARNESSES = [
